@@ -58,6 +58,14 @@ def special_objects():
         out.append(qc.from_(t).select("*", t.star, t.a).distinct().groupby(t.a).having(fn.Count("*") > 1).limit(5).offset(1))
         out.append(qc.into(t).columns("a").insert(1).insert(2))
         out.append(qc.from_(t).select(t.a).union(qc.from_(u).select(u.a)).orderby("a").limit(3))
+        # objects that went through replace_table (every clause container is rebuilt by it)
+        n = T_("n", alias="nn")
+        out.append(qc.from_(t).join(u).using("id", "kind").select(t.a, u.b).replace_table(t, n))
+        out.append(qc.from_(t).join(u).on(t.a == u.a).select(t.a, fn.Sum(u.b)).where(t.c.isin([1, 2])).groupby(t.a).having(fn.Sum(u.b) > 1)
+                   .orderby(t.a).replace_table(u, n))
+        out.append(qc.update(t).set(t.b, t.b + 1).where(t.c == 1).replace_table(t, n))
+        out.append(qc.into(t).columns("a", "b").insert(1, t.x).insert(2, 3).replace_table(t, n))
+        out.append((t.a.between(t.b, u.c) & fn.Coalesce(t.d, u.e).isin([t.f, 1])).replace_table(t, n))
     # every kind of constant at the positions where a builder uses its own wrapper class (select list, SET) and a plain one (criteria, rows)
     import datetime, decimal, uuid
     tz = datetime.timezone(datetime.timedelta(hours=2))
